@@ -22,6 +22,7 @@ from pysmt.exceptions import PysmtException
 from pysmt.substituter import MGSubstituter, MSSubstituter, FunctionInterpretation
 from pysmt.typing import BOOL, INT, REAL, STRING, BVType, ArrayType, FunctionType
 
+import time
 import warnings
 
 import common
@@ -693,6 +694,8 @@ def shape_of(c, res, mgres):
 
 
 def run(ctx):
+    import sys
+    sys.setrecursionlimit(max(sys.getrecursionlimit(), 20000))
     warnings.filterwarnings("ignore", message=".*Division by 0.*")
     quick = ctx.tier == "quick"
     n_k = 900 if quick else 12000
@@ -754,6 +757,81 @@ def run(ctx):
         subs = g.symbol_map(f)
         for ms in (False, True):
             cases.append((Case(f, dict(subs), {}, ms, env_ms, "symbols"), "sa"))
+    # directed: array LITERALS with symbolic entries (default and assigned values) under binders of those
+    # symbols; term keys / replacement values that mention the bound variable only inside such an entry
+    for i in range(50 if quick else 600):
+        env_ms = rng.random() < 0.25
+        g = gens[env_ms]
+        m = g.mgr
+        xv = rng.choice([q_ for q_ in g.uni.qvars if q_.symbol_type().is_int_type()])
+        others = [s_ for s_ in g.uni.syms[INT] if s_ is not xv]
+        yv = rng.choice(others)
+
+        def ent(with_x):
+            base = xv if with_x else rng.choice(others)
+            k = rng.random()
+            return base if k < 0.5 else m.Plus(base, m.Int(rng.choice([1, 2, -1]))) if k < 0.8 else m.Times(m.Int(2), base)
+        where = rng.choice(["assigned", "assigned", "default", "both"])
+        dflt = ent(where in ("default", "both")) if rng.random() < 0.8 or where != "assigned" else m.Int(0)
+        keys = rng.sample([1, 2, 3, 5, 7], rng.choice([1, 2, 3]))
+        assign = {}
+        for j, kk in enumerate(keys):
+            assign[m.Int(kk)] = ent(where in ("assigned", "both") and j == 0)
+        arr = m.Array(INT, dflt, assign)
+        idx = rng.choice([m.Int(keys[0]), yv, m.Plus(yv, m.Int(1))])
+        sel = m.Select(arr, idx)
+        shape = rng.random()
+        if shape < 0.4:
+            atom = m.GT(sel, m.Int(0))
+            key = sel
+        elif shape < 0.7:
+            a_sym = g.uni.syms[ArrayType(INT, INT)][0]
+            atom = m.Equals(m.Store(arr, yv, m.Int(4)), a_sym)
+            key = arr
+        else:
+            atom = m.LE(m.Plus(sel, yv), m.Select(arr, m.Int(9)))
+            key = rng.choice([sel, arr, m.Plus(sel, yv)])
+        body = atom if rng.random() < 0.5 else m.And(atom, m.Equals(xv, g.fg_small.gen(INT, 1)))
+        vs = [xv] if rng.random() < 0.7 else [xv, rng.choice([q_ for q_ in g.uni.qvars if q_ is not xv])]
+        q = (m.ForAll if rng.random() < 0.5 else m.Exists)(vs, body)
+        f = q if rng.random() < 0.4 else rng.choice([m.And, m.Or])(q, atom if rng.random() < 0.6 else g.fg_small.gen(BOOL, 1))
+        kt = g.type_of(key)
+        if rng.random() < 0.3 and kt.is_array_type():
+            val = m.Array(INT, ent(rng.random() < 0.5), {m.Int(4): ent(rng.random() < 0.5)})
+        else:
+            val = g.value_for(kt) if not kt.is_array_type() else g.uni.syms[kt][1]
+        subs = {key: val}
+        if rng.random() < 0.3:
+            subs[yv] = ent(rng.random() < 0.5)
+        for ms in (False, True):
+            cases.append((Case(f, dict(subs), {}, ms, env_ms, "array-literal-entries+mentions-bound"), "k"))
+    # directed: extreme but legal sizes — interpreted functions of large arity, maps with very many
+    # entries, operators with very many arguments, deep nesting
+    big = gens[False]
+    m = big.mgr
+    for n_ar in ([257, 300, 1000] if quick else [256, 257, 258, 300, 1000, 2000]):
+        fsym = m.Symbol("wide%d" % n_ar, FunctionType(INT, [INT] * n_ar))
+        formals = [m.Symbol("w%d" % j, INT) for j in range(n_ar)]
+        body = m.Plus(formals[0], formals[n_ar - 1], m.Times(m.Int(2), formals[n_ar // 2]))
+        actuals = [m.Int(j % 7) if j % 5 else rng.choice(big.uni.syms[INT]) for j in range(n_ar)]
+        f = m.LE(m.Function(fsym, actuals), m.Plus(big.uni.syms[INT][0], m.Int(n_ar)))
+        for ms in (False, True):
+            cases.append((Case(f, {}, {fsym: (formals, body)}, ms, False, "interp+large-arity"), "k"))
+    n_big = 1200 if quick else 4000
+    many = [m.Symbol("m%d" % j, INT) for j in range(n_big)]
+    fmany = m.LE(m.Plus(many), m.Int(0))
+    smany = {v_: (m.Int(j) if j % 3 else m.Plus(many[(j + 1) % n_big], m.Int(1))) for j, v_ in enumerate(many)}
+    bools = [m.Symbol("n%d" % j, BOOL) for j in range(n_big)]
+    fwide = m.Or(m.And(bools), m.Not(bools[0]))
+    swide = {bools[7]: m.Not(bools[8]), m.And(bools): bools[1], bools[n_big - 1]: m.Bool(True)}
+    deep = many[0]
+    for j in range(300 if quick else 800):
+        deep = m.Plus(many[j % 5], deep) if j % 2 else m.Minus(deep, many[(j + 1) % 5])
+    fdeep = m.Equals(deep, m.Int(1))
+    sdeep = {many[0]: m.Plus(many[1], m.Int(1)), many[3]: m.Int(0)}
+    for (ff, ss, kd) in [(fmany, smany, "large-map"), (fwide, swide, "many-arguments"), (fdeep, sdeep, "deep-nesting")]:
+        for ms in (False, True):
+            cases.append((Case(ff, dict(ss), {}, ms, False, kd), "k"))
     # directed: substitution reached THROUGH the environment (FNode.substitute / shortcuts.substitute /
     # env.substituter with the environment pushed as the current one), on maps on which the two
     # strategies differ; the strategy must be the one the environment class declares
@@ -970,6 +1048,7 @@ def run(ctx):
             cases.append((Case(f, {}, dict(interps), ms, env_ms, "interp-finite"), "si"))
 
     # ---------------------------------------------------------------- implementation + spec (S b, c)
+    ctx.extra["t_generation_s"] = round(time.time() - ctx.t0, 1)
     records = []
     seq_prefix = {}
     for (c, tag) in cases:
@@ -1079,6 +1158,7 @@ def run(ctx):
                 parts.append(wire.enc_term(c.f))
                 nocap_lines.append(" ".join(parts))
                 nocap_recs.append(r)
+    ctx.extra["t_impl_and_spec_s"] = round(time.time() - ctx.t0, 1)
     driver_ok = True
     try:
         answers = ctx.lean_run_sharded("C05", k_lines + spec_lines + normal_lines + nocap_lines)
@@ -1086,6 +1166,7 @@ def run(ctx):
         ctx.report_l("driver C05 does not run", str(e))
         driver_ok = False
         answers = []
+    ctx.extra["t_driver_s"] = round(time.time() - ctx.t0, 1)
     if driver_ok:
         a_k = answers[:len(k_lines)]
         a_spec = answers[len(k_lines):len(k_lines) + len(spec_lines)]
@@ -1130,6 +1211,29 @@ def run(ctx):
     semantic_check(ctx, envs, gens, [r for r in records if r["tag"] == "sa"], [r for r in records if r["tag"] == "si"])
 
 
+def eval_cost(f, memo=None):
+    """estimate of the work of the reference evaluator on f (tree size, a quantifier multiplies the cost
+    of its body by the size of the domains it enumerates)"""
+    if memo is None:
+        memo = {}
+    if f in memo:
+        return memo[f]
+    c = 1
+    for a in f.args():
+        c += eval_cost(a, memo)
+    if f.is_quantifier():
+        mult = 1
+        for v in f.quantifier_vars():
+            t = v.symbol_type()
+            mult *= 2 if t.is_bool_type() else (1 << t.width) if t.is_bv_type() else 4 if (t.is_int_type() or t.is_real_type()) else 2
+        c = mult * c
+    memo[f] = min(c, 10 ** 12)
+    return memo[f]
+
+
+EVAL_COST_LIMIT = 30000
+
+
 def semantic_check(ctx, envs, gens, sa, si):
     n_interp = 3
     # phase 1: values of the replacement terms / function tables
@@ -1145,6 +1249,9 @@ def semantic_check(ctx, envs, gens, sa, si):
             continue
         if not r.get("nocap"):
             ctx.count("sa_skipped_capture")
+            continue
+        if eval_cost(c.f) + eval_cost(out[1]) > EVAL_COST_LIMIT:
+            ctx.count("sa_skipped_evaluation_cost")
             continue
         ig = gen.InterpGen(ctx.rng, gens[c.env_ms].uni)
         terms = [c.f, out[1]] + list(c.subs.values()) + list(c.subs.keys())
@@ -1181,6 +1288,9 @@ def semantic_check(ctx, envs, gens, sa, si):
         if bodies_bound & allsyms:
             ctx.count("si_skipped_capture")
             continue
+        if eval_cost(c.f) + eval_cost(out[1]) > EVAL_COST_LIMIT:
+            ctx.count("si_skipped_evaluation_cost")
+            continue
         ig = gen.InterpGen(ctx.rng, gens[c.env_ms].uni)
         try:
             Is = [interp_for(ig, [c.f, out[1]] + [b for _, (fm, b) in c.interps.items()]) for _ in range(2)]
@@ -1197,6 +1307,8 @@ def semantic_check(ctx, envs, gens, sa, si):
             continue
         r["interps"] = Is
         r["vals"] = [dict() for _ in Is]
+    ctx.extra["sem_p1_lines"] = len(p1_lines)
+    ctx.extra["t_sem_p1_start_s"] = round(time.time() - ctx.t0, 1)
     try:
         a1 = ctx.lean_run_sharded("Sem", p1_lines)
     except common.LeanError as e:
@@ -1244,6 +1356,8 @@ def semantic_check(ctx, envs, gens, sa, si):
             p2_lines.append("evalc %s %s" % (wire.enc_interp(*I), wire.enc_term(r["out"][1])))
             p2_lines.append("evalc %s %s" % (wire.enc_interp(I[0], fns2, I[2]), wire.enc_term(c.f)))
             p2_meta.append((r, j, "si"))
+    ctx.extra["sem_p2_lines"] = len(p2_lines)
+    ctx.extra["t_sem_p2_start_s"] = round(time.time() - ctx.t0, 1)
     try:
         a2 = ctx.lean_run_sharded("Sem", p2_lines)
     except common.LeanError as e:
